@@ -54,6 +54,30 @@ CHECKS = {
              "results; the cache-invisibility pairs are shape-bounded (5 symbolic points). Induction over query histories from "
              "pairwise invisibility + frame is the meta-argument. Bounded part is reported separately.",
         technique="symbolic execution with state snapshots + relational obligations (z3); static AST frame analysis; bounded run-time pairs"),
+    'C10': dict(
+        category='proof',
+        text="pressure(loading(p)) == p and conversely, the zero point, non-negativity, monotonicity (two-point form), the "
+             "saturation bound and the Henry limit are discharged on the real model methods for all parameters inside the "
+             "declared bounds and all pressures in the validity range: z3/nlsat for Henry, Langmuir, DS-Langmuir, BET, GAB, "
+             "Quadratic, TemkinApprox (through the real sqrt/nan_to_num paths, scalars, 0-d and 1-d arrays), sympy for Freundlich, "
+             "Toth, DR, DA, Jensen-Seaton, TS-Langmuir. Numerical inverses: the residual closure handed to scipy is proved to be "
+             "forward(x)-target, failure raises CalculationError, the solver's x is returned. ModelIsotherm wrappers via the "
+             "accessor contract.",
+        design_ref='§3 C10',
+        note="Assumes real arithmetic, numpy function contracts (npproxy), scipy.optimize contract stubs; sympy is trusted. "
+             "Convergence of the numerical inverses is not decided. Known findings: degenerate parameter sets of BET/GAB/Quadratic.",
+        technique="symbolic execution of the real model methods + z3 nlsat; sympy CAS on the same code objects; optimizer contract stubs"),
+    'C11': dict(
+        category='proof',
+        text="For the 9 analytic models p*dPi/dp == loading(p) and Pi(0+) == 0 are proved with sympy on the real methods (hence Pi is "
+             "the integral, additive and increasing, by the fundamental theorem of calculus); for the 4 quad-based models the call is "
+             "proved to be quad(loading(x)/x, 0, p); for point isotherms the result is proved equal to the Henry segment plus the "
+             "exact segment integrals of the linear interpolant (2..4 symbolic points, queries below/at/between/above, unit "
+             "arguments); ModelIsotherm converts the argument by the C01 factor for every (input, stored) mode pair.",
+        design_ref='§3 C11',
+        note="Assumes the FTC lemma, quad and interp1d contracts, ln as uninterpreted function, real arithmetic; sympy trusted. "
+             "Point-isotherm obligations are shape-bounded. Known finding: TemkinApprox constant of integration.",
+        technique="sympy CAS on the real methods; symbolic execution + z3 for point isotherms and call sites"),
 }
 
 NOT_YET = {
